@@ -1281,7 +1281,10 @@ public:
 
         // create new jobs
         pwork_ = parts_;
-        for (unsigned int p = 0; p < parts_; ++p)
+        // the last job may finish the whole step and delete this object
+        // before enqueue() returns: keep the loop bound in a local
+        const size_t parts = parts_;
+        for (unsigned int p = 0; p < parts; ++p)
         {
             ctx_.threads_.enqueue([this, p]() { count(p); });
         }
@@ -1341,7 +1344,10 @@ public:
 
         // create new jobs
         pwork_ = parts_;
-        for (unsigned int p = 0; p < parts_; ++p)
+        // the last job may finish the whole step and delete this object
+        // before enqueue() returns: keep the loop bound in a local
+        const size_t parts = parts_;
+        for (unsigned int p = 0; p < parts; ++p)
         {
             ctx_.threads_.enqueue([this, p]() { distribute(p); });
         }
